@@ -213,7 +213,14 @@ Inv_C02c(o) ==
   (AtPoint(o) /\ ~o.panic) =>
      /\ (o.eof = "seen" => ~o.pt.alive)                \* dispatch stops promptly after peer close
      /\ (~o.pt.alive) => \A c \in Calls(o) : ~(o.call[c].st = "started" /\ o.call[c].polled)
-Inv_C02(o) == Inv_C02a(o) /\ Inv_C02b(o) /\ Inv_C02c(o)
+(* capacity coming back wakes the dispatch: at a settle point with a writable sink no started call is still    *)
+(* waiting to be transmitted while fewer than the maximum are in flight                                         *)
+Inv_C02d(o) ==
+  (AtPoint(o) /\ o.pt.alive /\ o.pt.writable /\ ~o.panic /\ FatalFaults(o) = {} /\ o.eof = "none" /\ o.disp = "live") =>
+     (o.pt.infl < o.maxInFlight =>
+        \A c \in Calls(o) : ~(o.call[c].st = "started" /\ o.call[c].polled /\ o.call[c].id < 0 /\ ~o.call[c].afterDone
+                                /\ ~SendFailed(o, c)))
+Inv_C02(o) == Inv_C02a(o) /\ Inv_C02b(o) /\ Inv_C02c(o) /\ Inv_C02d(o)
 
 (* ------------------------------------------------------------------ C03 *)
 Inv_C03a(o) == \A i \in DOMAIN o.wire : o.wire[i].kind = "cancel" => Cardinality(CancelsOf(o, o.wire[i].id)) <= 1
